@@ -16,13 +16,15 @@ def rand_op(r, nids):
     k = r.below(10)
     t = r.below(100)
     if t < 45:
-        v = "I%d" % k if r.chance(3, 4) else "D"
+        v = r.choice(["I%d" % k, "I%d" % k, "I%d" % k, "D", "F%d" % k])      # F = insert whose serialisation fails part-way
         n = r.choice([0, 0, 1, 1, 2, 3])
         return "E%d:%s:%d%s" % (i, v, n, "R" if r.chance(1, 2) else "D")
     if t < 65:
         return "G%d" % i
-    if t < 78:
+    if t < 74:
         return "T%d:%d" % (i, k)
+    if t < 80:
+        return "X%d:%d" % (i, k)                                              # try_insert of a failing key
     if t < 90:
         return "R%d" % i
     return "O"
@@ -35,13 +37,16 @@ def gen_sequences(ctx):
     # targeted: repeated Occupied::get and get-then-remove on one entry (F6's class), vacant drop, reopen
     seqs += [["E0:I3:0D", "E0:D:2D", "G0"], ["E0:I3:0D", "E0:D:1R", "G0", "E0:I4:0D", "G0"],
              ["E1:I5:0D", "E1:D:3R", "O", "G1"], ["E2:D:0D", "G2", "O", "G2", "E2:I1:0D", "O", "G2", "E2:D:2R", "O", "G2"],
-             ["T0:1", "T0:2", "R0", "R0", "T0:2", "G0"], ["E0:I1:0D", "E1:I2:0D", "E2:I3:0D", "O", "G0", "G1", "G2", "R1", "O", "G0", "G1", "G2"]]
+             ["T0:1", "T0:2", "R0", "R0", "T0:2", "G0"],
+             # failed inserts: nothing may be left behind, also not after reopen
+             ["E0:F3:0D", "G0", "E0:D:0D", "O", "G0", "E0:I4:0D", "G0"], ["X1:5", "G1", "O", "G1", "T1:6", "X1:7", "G1", "R1", "X1:8", "G1"],
+             ["E2:F1:0D", "E2:F2:0D", "O", "E2:D:1R", "T2:9", "E2:F3:2R", "G2"], ["E0:I1:0D", "E1:I2:0D", "E2:I3:0D", "O", "G0", "G1", "G2", "R1", "O", "G0", "G1", "G2"]]
     for _ in range(2500 if T else 150):
         n = r.choice([1, 2, 3, 4, 6, 8, 12, 16] if not T else [2, 4, 8, 12, 16, 24, 40])
         seqs.append([rand_op(r, NIDS if not T or r.chance(3, 4) else 5) for _ in range(n)])
     if T:
         # exhaustive small scope: every sequence of length <= 3 over a 13-op alphabet on two ids
-        alpha = ["E0:I1:0D", "E0:I2:2R", "E0:D:1D", "E0:D:2R", "G0", "T0:3", "R0", "O", "E1:I4:1R", "E1:D:0D", "G1", "T1:5", "R1"]
+        alpha = ["E0:I1:0D", "E0:I2:2R", "E0:D:1D", "E0:D:2R", "E0:F6:1R", "X0:7", "G0", "T0:3", "R0", "O", "E1:I4:1R", "E1:D:0D", "G1", "T1:5", "R1"]
         for n in (1, 2, 3):
             for s in itertools.product(alpha, repeat=n):
                 seqs.append(list(s))
@@ -63,6 +68,10 @@ def canon_token(tok):
     listing = [int(x) if x.isdigit() else 999 for x in lst.split(",")] if lst else []
     if body in ("V1", "V0"):
         ob = [100, int(body[1])]
+    elif body == "Vf":
+        ob = [100, 2]
+    elif body == "tf":
+        ob = [103, 2]
     elif body.startswith("U["):
         m = re.fullmatch(r"U\[(.*)\]:(.*)", body)
         gs = [kv(x) for x in m.group(1).split(",")] if m.group(1) else []
@@ -96,6 +105,8 @@ def spec(ops):
                     del m[i]
             elif f[1] == "D":
                 ob = [100, 0]
+            elif f[1][0] == "F":
+                ob = [100, 2]                      # failed insert: the map is unchanged
             else:
                 m[i] = int(f[1][1:])
                 ob = [100, 1]
@@ -109,6 +120,9 @@ def spec(ops):
             else:
                 m[i] = k
                 ob = [103, 1]
+        elif c == "X":
+            i = int(op[1:].split(":")[0])
+            ob = [103, 0] if i in m else [103, 2]
         elif c == "R":
             i = int(op[1:])
             ob = [104, m.pop(i) + 10 if i in m else 0]
@@ -122,7 +136,7 @@ def coq_op(op):
     c = op[0]
     if c == "E":
         f = op[1:].split(":")
-        v = "(VDrop N)" if f[1] == "D" else "(VInsert N %d)" % int(f[1][1:])
+        v = "(VDrop N)" if f[1] == "D" else ("(VInsertFail N [1; 9])" if f[1][0] == "F" else "(VInsert N %d)" % int(f[1][1:]))
         return "OEntry N %d %s {| gets := %d%%nat; then_remove := %s |}" % (
             int(f[0]), v, int(f[2][:-1]), "true" if f[2].endswith("R") else "false")
     if c == "G":
@@ -130,6 +144,8 @@ def coq_op(op):
     if c == "T":
         i, k = op[1:].split(":")
         return "OTryInsert N %d %d" % (int(i), int(k))
+    if c == "X":
+        return "OTryInsertFail N %d [1; 9]" % int(op[1:].split(":")[0])
     if c == "R":
         return "ORemove N %d" % int(op[1:])
     return "OReopen N"
@@ -209,6 +225,7 @@ def run(ctx):
     for s in seqs:
         for o in s:
             kinds[o[0]] = kinds.get(o[0], 0) + 1
+    fail_ins = sum(1 for (p, st, ops, tr) in cases if p == "dev" and st == "fs" for (ob, _) in tr if ob in ([100, 2], [103, 2]))
     rep_get = sum(1 for s in seqs for n, o in enumerate(s) if o[0] == "E" and int(o.split(":")[2][:-1]) >= 2)
     get_rm = sum(1 for s in seqs for o in s if o[0] == "E" and int(o.split(":")[2][:-1]) >= 1 and o.endswith("R"))
     occ = sum(1 for (p, st, ops, tr) in cases if p == "dev" and st == "fs" for (ob, _) in tr if ob[0] == 101)
@@ -219,7 +236,7 @@ def run(ctx):
         "traces_validated_against_impl": len(cases),
         "evaluations": 4 * nops,
         "distinct_nontrivial": len({tuple(s) for s in seqs if len(s) >= 2 and any(o[0] == "E" for o in s)}),
-        "rule": "case = one operation sequence (entry+insert/drop, entry+n gets+remove/drop, get, try_insert, remove, reopen) over %d ids run on a "
+        "rule": "case = one operation sequence (entry+insert/drop/FAILING insert (Serialize errors after the first field), entry+n gets+remove/drop, get, try_insert (also with a failing key), remove, reopen) over %d ids run on a "
                 "fresh fs store (own temp directory) and a fresh MemStore, in the dev and the debug-assertions-off profile; after every op "
                 "the observation and the directory listing (canary excluded) / map domain are compared with the model and with a Python dict; "
                 "non-trivial = at least 2 ops including an entry; distinct by op sequence" % NIDS,
@@ -227,6 +244,7 @@ def run(ctx):
                          "entry_ops_asking_for_repeated_get": rep_get, "entry_ops_asking_for_get_then_remove": get_rm,
                          "occupied_entries_observed(fs,dev)": occ, "of_which_with_2+_gets": occ_multi,
                          "of_which_get_then_remove": occ_get_rm,
+                         "failed_inserts_observed(fs,dev)": fail_ins,
                          "stores": ["fs_keystore::Store", "memstore::MemStore"], "profiles": ["dev", "nodebug"]},
         "samples": [{"ops": " ".join(ops), "store": st, "profile": p, "trace": tr} for (p, st, ops, tr) in cases[:2] + cases[12:14]],
     })
